@@ -27,7 +27,7 @@ func (e StdEng) argmaxDenseTensor(t DenseTensor, axis int) (retVal *Dense, err e
 	// SPECIAL CASE: FLAT ARGMAX
 	if axis == AllAxes {
 		var index int
-		if mt, ok := t.(MaskedTensor); !(ok && mt.IsMasked()) && t.RequiresIterator() {
+		if mt, ok := t.(MaskedTensor); !(ok && mt.IsMasked()) && (t.RequiresIterator() || t.DataOrder().IsColMajor()) {
 			// the storage order is not the logical order: walk the elements in logical order
 			var indices []int
 			if indices, err = e.E.ArgmaxIter(typ, dataA, IteratorFromDense(t), t.Size()); err != nil {
@@ -122,7 +122,7 @@ func (e StdEng) argminDenseTensor(t DenseTensor, axis int) (retVal *Dense, err e
 	// SPECIAL CASE: FLAT ARGMAX
 	if axis == AllAxes {
 		var index int
-		if mt, ok := t.(MaskedTensor); !(ok && mt.IsMasked()) && t.RequiresIterator() {
+		if mt, ok := t.(MaskedTensor); !(ok && mt.IsMasked()) && (t.RequiresIterator() || t.DataOrder().IsColMajor()) {
 			// the storage order is not the logical order: walk the elements in logical order
 			var indices []int
 			if indices, err = e.E.ArgminIter(typ, dataA, IteratorFromDense(t), t.Size()); err != nil {
